@@ -5,6 +5,12 @@ import gen_checker as GC
 NAMES = ["f", "g", "p", "__init__", "__new__", "__setattr__", "_priv", "__repr__", "__eq__"]
 
 
+# the module the definitions of a history live in (the library leaves only classes of its own module
+# icontract._metaclass unannounced: every other name, however close, is a user module)
+MODULES = ["elab_case", "__main__", "app.models", "icontract_models", "icontracts", "icontract_ext.strategies",
+           "my_icontract._metaclass", "icontract._metaclass_user", "tests.icontract._metaclass"]
+
+
 class GenElab:
     def __init__(self, rng, misuse=0.05, foreign=0.25, multi=0.35, invariants=0.5):
         self.rng = rng
@@ -155,7 +161,7 @@ class GenElab:
                               if m["kind"] == "plain" and m["name"] in ("f", "g")
                               and not any(d[0] == "invalid" for d in m["decos"])]
             nclasses += 1
-        return {"ops": ops, "names": NAMES}
+        return {"ops": ops, "names": NAMES, "module": self.rng.choice(MODULES)}
 
 
     # ---- directed shapes: hierarchies in which the walk over several bases matters
@@ -223,7 +229,7 @@ class GenElab:
             ops = [self._cls([], [fn(nm, "plain", [ens()])]),
                    self._cls([], [fn("f", "plain", [])], invs=[self._inv("ALL")]),
                    self._cls(order, rng.choice([[], [fn("g", "plain", [])]]))]
-        return {"ops": ops, "names": NAMES, "shape": shape}
+        return {"ops": ops, "names": NAMES, "shape": shape, "module": self.rng.choice(MODULES)}
 
 
 # ------------------------------------------------------------------ Python source
